@@ -1,4 +1,6 @@
 import PyttbModel.Driver.C07
+import PyttbModel.Driver.C02
+import PyttbModel.Ops.ConvertChain
 open Lean Pyttb Pyttb.Codec
 namespace Pyttb.Driver
 
@@ -32,6 +34,62 @@ def optCyc (j : Json) : R (Option Cyclic) :=
   | some (.str "bc") => .ok (some .bc)
   | some (.str "t") => .ok (some .t)
   | some _ => .error "bad cyc"
+
+/-! second batch: holders, conversion steps, reports -/
+
+def asHolder01 (j : Json) : R (Holder Rat) := do
+  let k ← field j "kind" >>= asStr
+  match k with
+  | "dense" => do let t ← asDense j; .ok (.dense t)
+  | "sparse" => do let s ← asSparse j; .ok (.sparse s)
+  | "kruskal" => do let t ← asKtensor j; .ok (.kruskal t)
+  | "tucker" => do let t ← asTtensor j; .ok (.tucker t)
+  | "sum" => do let ps ← field j "parts" >>= asList asPart; .ok (.sum ps)
+  | "tenmat" => do let m ← asTenmat j; .ok (.tenmat m)
+  | "sptenmat" => do let m ← asSptenmat j; .ok (.sptenmat m)
+  | _ => .error s!"bad holder kind {k}"
+
+def holderJ01 : Holder Rat → Json
+  | .dense t => tag "dense" (denseJ t)
+  | .sparse s => tag "sparse" (sparseJ s)
+  | .kruskal k => tag "kruskal" (ktensorJ k)
+  | .tucker t => tag "tucker" (ttensorJ t)
+  | .sum ps => Json.mkObj [("kind", Json.str "sum"), ("parts", listJ partJ ps)]
+  | .tenmat m => tag "tenmat" (tenmatJ m)
+  | .sptenmat m => tag "sptenmat" (sptenmatJ m)
+
+/-- what the object reports about itself -/
+def reportsJ : Holder Rat → Json
+  | .dense t => Json.mkObj [("shape", natsJ t.shape), ("nnz", toJson t.nnz)]
+  | .sparse s => Json.mkObj [("shape", natsJ s.shape), ("nnz", toJson s.nnz)]
+  | .kruskal k => Json.mkObj [("shape", natsJ k.shape)]
+  | .tucker t => Json.mkObj [("shape", natsJ t.shape)]
+  | .sum ps => Json.mkObj [("shape", natsJ (ps.headD (.dense ⟨[], []⟩)).shape)]
+  | .tenmat m => Json.mkObj [("tshape", natsJ m.tshape), ("rdims", natsJ m.rdims), ("cdims", natsJ m.cdims),
+      ("shape", natsJ m.shapeProp), ("ndims", toJson m.ndims)]
+  | .sptenmat m => Json.mkObj [("tshape", natsJ m.tshape), ("rdims", natsJ m.rdims), ("cdims", natsJ m.cdims),
+      ("shape", natsJ m.shapeProp), ("nnz", toJson m.nnz)]
+
+def asConv (j : Json) : R Conv := do
+  let c ← field j "c" >>= asStr
+  match c with
+  | "full" => .ok .full
+  | "to_tensor" => .ok .toTensor
+  | "to_sptensor" => .ok .toSptensor
+  | "to_tenmat" => do
+    let r ← optNats j "rdims"
+    let cd ← optNats j "cdims"
+    let cyc ← optCyc j
+    .ok (.toTenmat r cd cyc)
+  | "to_sptenmat" => do
+    let r ← optNats j "rdims"
+    let cd ← optNats j "cdims"
+    let cyc ← optCyc j
+    .ok (.toSptenmat r cd cyc)
+  | _ => .error s!"bad conversion {c}"
+
+def stateJ (h : Holder Rat) : Json :=
+  Json.mkObj [("h", holderJ01 h), ("rep", reportsJ h), ("double", exceptJ denseJ h.double)]
 
 def ops01 : List (String × Op) := [
   ("to_sptensor", fun j => do
@@ -73,7 +131,35 @@ def ops01 : List (String × Op) := [
     .ok (exceptJ denseJ K.full)),
   ("k_full_pinned", fun j => do
     let K ← field j "K" >>= asKtensor
-    .ok (exceptJ denseJ (Ktensor.fullG false K)))
+    .ok (exceptJ denseJ (Ktensor.fullG false K))),
+  -- second batch --------------------------------------------------------------------------
+  -- a chain of conversions: the state (stored form, reports, double()) after every prefix
+  ("c01_chain", fun j => do
+    let H ← field j "H" >>= asHolder01
+    let steps ← field j "steps" >>= asList asConv
+    let trace := (List.range (steps.length + 1)).map fun k =>
+      exceptJ stateJ (runChain (steps.take k) H)
+    .ok (Json.mkObj [("trace", Json.arr trace.toArray),
+                     ("valid", Json.bool (chainValid H.shape.length steps H.kind))])),
+  ("c01_tenmat_ctor", fun j => do
+    let d ← field j "data" >>= asDense
+    let r ← optNats j "rdims"
+    let c ← optNats j "cdims"
+    let ts ← optNats j "tshape"
+    .ok (exceptJ (fun M => stateJ (.tenmat M)) (Tenmat.mk? d r c ts))),
+  ("c01_k_tenmat", fun j => do
+    let K ← field j "K" >>= asKtensor
+    let r ← optNats j "rdims"
+    let c ← optNats j "cdims"
+    let cyc ← optCyc j
+    let viaFull : Json := match K.full with
+      | .error _ => rejectJ
+      | .ok D => exceptJ tenmatJ (D.toTenmat r c cyc)
+    let kr : Json := match K.toTenmat r c cyc with
+      | .error _ => rejectJ
+      | .ok M => exceptJ denseJ (K.krTenmat M.rdims M.cdims)
+    .ok (Json.mkObj [("model", exceptJ (fun M => stateJ (.tenmat M)) (K.toTenmat r c cyc)),
+                     ("via_full", viaFull), ("kr", kr)]))
 ]
 
 end Pyttb.Driver
